@@ -21,6 +21,9 @@ from armulator.armv6.opcodes.decoders import thumb_parallel_addition_and_subtrac
 
 
 def decode_instruction(instr):
+    if substring(instr, 15, 12) != 0b1111:
+        # bits[15:12] of the second halfword must be 1111, otherwise the instruction is UNDEFINED
+        return None
     instr_23_21 = substring(instr, 23, 21)
     op2 = substring(instr, 7, 4)
     op1 = substring(instr, 23, 20)
